@@ -105,15 +105,15 @@ class ThermochemGroupAdditive(ThermochemBase):
 
     def get_CpoR_SE(self, T):
         return float(np.sqrt(np.square(self.RMSE.get_CpoR(T)) *
-                             self.Xp_invXX_Xp))
+                             self.Xp_invXX_Xp).item())
 
     def get_HoRT_SE(self, T):
         return float(np.sqrt(np.square(self.RMSE.get_HoRT(T)) *
-                             self.Xp_invXX_Xp))
+                             self.Xp_invXX_Xp).item())
 
     def get_SoR_SE(self, T):
         return float(np.sqrt(np.square(self.RMSE.get_SoR(T)) *
-                             self.Xp_invXX_Xp))
+                             self.Xp_invXX_Xp).item())
 
 
 GroupLibrary.register_property_set_type(
